@@ -15,7 +15,9 @@ MANIFEST = {
          "read(2) outcome schedules (short reads, EAGAIN, EINTR, errors) and all epoll event sequences: delivered bytes are "
          "an in-order prefix of what the peer wrote and all of it at a read-0 EOF; every alloc_cb is followed by exactly one "
          "read_cb with that buffer; no callback after UV_EOF / read error / uv_read_stop until uv_read_start succeeds; at most "
-         "32 alloc/read rounds per wakeup; the synthetic EOF on POLLHUP never loses data on IPC pipes (no kernel assumption) and on other streams when short "
+         "32 alloc/read rounds per wakeup; while UV_HANDLE_READING is set the watcher stays armed for POLLIN with read_cb set, and a refused "
+         "alloc_cb (UV_ENOBUFS) whose read_cb keeps the stream open leaves it reading (reading ends only on UV_EOF, a read error, "
+         "uv_read_stop or uv_close; checked on the real library by draining the loop); the synthetic EOF on POLLHUP never loses data on IPC pipes (no kernel assumption) and on other streams when short "
          "reads imply a drained socket (and DOES lose data otherwise: negation proved; that was the IPC data-loss defect, now fixed). The model "
          "is tied to the working tree by running the real library on real sockets and diffing every line, plus independent monitors.",
  "note": "Trusted: Lean kernel; kernel read semantics built into the model's `kread` (bytes from the head of the receive "
@@ -102,18 +104,37 @@ def gen_big_case(rng):
         if rng.chance(1, 3): case.append("run")
     case.append(rng.choice(["peer close", "peer close", "peer shut", "run"]))
     case += ["run"] * rng.range(2, 5)
+    if rng.chance(3, 4):
+        case.append("drain")
     case.append("end")
     return case
+
+
+def gen_refusing_allocs(rng):
+    """alloc_cb that refuses (every refusal style) early and repeatedly, between small and default-size buffers: the
+    refusals land while bytes are still queued in the kernel"""
+    out = []
+    for _ in range(rng.range(2, 30)):
+        r = rng.below(10)
+        if r < 3: out.append(rng.choice(["0", "u", "z", "b5", "b65536"]))
+        elif r < 8: out.append(str(rng.choice([1, 2, 3, 5, 8, 64])))
+        else: out.append("65536")
+    out[rng.below(min(len(out), 4))] = rng.choice(["0", "u", "z", "b9"])
+    return out
 
 
 def gen_case(rng, nsteps, bias=None):
     if bias == "big" or (bias is None and rng.chance(1, 12)):
         return gen_big_case(rng)
+    if bias is None and rng.chance(1, 10):
+        bias = "keepopen"
     kind = rng.choice(["pipe", "pipe", "tcp", "ipc", "ipc"])
     if bias == "ipc":
         kind = "ipc"
     case = ["open " + kind]
-    al = gen_allocs(rng)
+    # "keepopen": a reader that treats UV_ENOBUFS / nread 0 as "skip this round" - never closes, rarely stops - under an
+    # allocator that refuses now and then; the stream must still deliver every byte and the terminal UV_EOF / error
+    al = gen_refusing_allocs(rng) if bias == "keepopen" else gen_allocs(rng)
     if al:
         case.append("allocs " + " ".join(al))
     ev = gen_env(rng)
@@ -122,8 +143,10 @@ def gen_case(rng, nsteps, bias=None):
     for k in sorted(set(rng.below(24) for _ in range(rng.below(6)))):
         ops = rng.choice([["stop"], ["stop", "start"], ["stop", "start"], ["start"], ["close"], ["stop", "start", "stop"],
                           ["stop", "stop"], ["close", "start"], ["stop", "close"]])
-        if bias == "noclose":
+        if bias in ("noclose", "keepopen"):
             ops = [o for o in ops if o != "close"] or ["stop"]
+        if bias == "keepopen" and ops[-1] == "stop":
+            ops = ops + ["start"]
         case.append(f"script {k} " + " ".join(ops))
     if rng.chance(9, 10):
         case.append("start")
@@ -133,12 +156,13 @@ def gen_case(rng, nsteps, bias=None):
         elif r < 15 and kind == "ipc": case.append(f"peer fd {rng.range(1, 12)}")
         elif r < 26: case.append("run")
         elif r < 28: case.append(f"runx {rng.choice([1, 16, 17, 8192, 1])} {rng.choice([0, 0, 1, 8, 9])}")
-        elif r < 30: case.append("stop")
+        elif r < 30: case.append("run" if bias == "keepopen" and rng.chance(2, 3) else "stop")
         elif r < 33: case.append("start")
         elif r < 35: case.append("peer shut")
         elif r < 37: case.append("peer close")
-        elif r == 37 and bias != "noclose": case.append("close")
+        elif r == 37 and bias not in ("noclose", "keepopen"): case.append("close")
         elif r == 38 and rng.chance(1, 2): case.append("wbig")
+        elif r == 39 and rng.chance(1, 2): case.append("drain")
         else: case.append("run")
     if rng.chance(1, 2):
         case.append(rng.choice(["peer close", "peer shut"]))
@@ -154,6 +178,10 @@ def gen_case(rng, nsteps, bias=None):
         case.append("peer close")
         case += ["run"] * rng.range(1, 3)
         if rng.chance(1, 3): case += ["start", "run"]
+    # liveness: run the loop until the stream makes no more progress; whatever reading is still active by then must have
+    # delivered every byte the peer wrote and, if the peer is gone, the terminal UV_EOF / read error
+    if bias == "keepopen" or rng.chance(3, 4):
+        case.append("drain")
     if kind == "tcp":
         # TCP: a full close with a large write in flight (either order) makes the kernel answer RST, which discards data
         # still queued towards the stream - not bytes the descriptor ever receives.  Half-close instead (the harness
@@ -189,18 +217,46 @@ def monitor(case, out):
     closing = closed = False
     st = {"short": 0, "eagain": 0, "eintr": 0, "err": 0, "eof_read0": 0, "eof_synth": 0, "enobufs": 0, "cb_ops": 0,
           "cap32": 0, "reads": 0, "bare": 0, "restart_after_eof": 0, "fdmsgs": 0, "events_while_quiet": 0,
-          "events_while_quiet_pollout_armed": 0, "wbig": 0, "reads_cap_gt_64k": 0, "read_cap_lt_buffer": 0, "reads_ge_64k_bytes": 0}
+          "events_while_quiet_pollout_armed": 0, "wbig": 0, "reads_cap_gt_64k": 0, "read_cap_lt_buffer": 0, "reads_ge_64k_bytes": 0,
+          "drains": 0, "drain_capped": 0, "drain_while_reading": 0, "drain_reading_after_enobufs": 0, "drain_reading_after_nread0": 0,
+          "drain_reading_peer_open": 0, "drain_runs": 0}
     in_cb = False
     i = 0
     starts_ok = 0           # successful uv_read_start calls so far: the harness registers callback pair (starts_ok - 1) % 4
     eof_seen = False
     reset_seen = False      # a read error (ECONNRESET, EPIPE, ...) ends the delivery obligation
+    peer_done = False       # the peer half-closed or closed: the stream has an end that must be reported
+    since_start = {"enobufs": 0, "zero": 0, "eagain": 0, "short": 0}   # what happened since the latest successful uv_read_start
     while i < len(out):
         l = out[i]; w = l.split(); i += 1
         if l.startswith("#harness-env-failure"):
             raise Bad("harness-env-failure", l)
         if l == "bad-op":
             raise Bad("harness-bad-op", "harness rejected an op")
+        if w[0] == "#drained":
+            # liveness half of the property: reading stops only on UV_EOF, a read error, uv_read_stop() or uv_close().  The
+            # loop was run until the stream made no progress in two consecutive iterations; if reading is still active
+            # (uv_read_start succeeded and none of those four happened since), nothing the peer wrote may be left
+            # undelivered and a finished peer must have been reported.
+            st["drains"] += 1; st["drain_runs"] += int(w[1])
+            if w[2] != "capped=0":
+                st["drain_capped"] += 1
+            elif not quiet and not closing:
+                st["drain_while_reading"] += 1
+                if since_start["enobufs"]: st["drain_reading_after_enobufs"] += 1
+                if since_start["zero"]: st["drain_reading_after_nread0"] += 1
+                after = ", ".join(f"{v}x {k}" for k, v in (("UV_ENOBUFS", since_start["enobufs"]), ("nread 0", since_start["zero"]),
+                                                            ("short read", since_start["short"])) if v) or "plain reads"
+                if delivered != sent and not reset_seen:
+                    raise Bad("reading-stopped-without-eof-error-stop", f"uv_read_start succeeded and neither UV_EOF, a read error, "
+                              f"uv_read_stop nor uv_close happened since ({after}), the loop ran until idle, yet only {delivered} of the "
+                              f"{sent} bytes the peer wrote were delivered")
+                if peer_done:
+                    raise Bad("eof-never-delivered", f"the peer {'closed' if peer_done == 2 else 'half-closed'}, reading is active "
+                              f"(no UV_EOF / read error / uv_read_stop / uv_close since uv_read_start; {after}), the loop ran until idle, "
+                              f"yet neither UV_EOF nor a read error was reported ({delivered} of {sent} bytes delivered)")
+                st["drain_reading_peer_open"] += 1
+            continue
         if l.startswith("#"):
             continue
         if w[0] == "op":
@@ -209,6 +265,8 @@ def monitor(case, out):
                 if not (i < len(out) and out[i] == "#ignored"):
                     sent += int(w[3])
                     if w[2] == "fd": fdmsgs += 1; st["fdmsgs"] += 1
+            elif w[1] == "peer" and w[2] in ("shut", "close"):
+                peer_done = max(peer_done, 2 if w[2] == "close" else 1)
             elif w[1] == "run":
                 allocs_in_run = 0
             elif w[1] == "wbig":
@@ -276,8 +334,9 @@ def monitor(case, out):
                               f"(stream offset {delivered})")
                 if delivered + n > sent:
                     raise Bad("data-not-in-order-prefix", "delivered more than the peer wrote")
-                if n < size: st["short"] += 1
+                if n < size: st["short"] += 1; since_start["short"] += 1
                 delivered += n
+            if n == 0: since_start["zero"] += 1
             if n == EOF:
                 if b != "-": st["eof_read0"] += 1
                 if delivered != sent and not reset_seen:
@@ -289,7 +348,7 @@ def monitor(case, out):
                 eof_seen = True
                 quiet, why = True, "UV_EOF was reported and uv_read_start not called since"
             elif n == ENOBUFS:
-                st["enobufs"] += 1
+                st["enobufs"] += 1; since_start["enobufs"] += 1
             elif n in (-4, -11):
                 # EINTR / EAGAIN of read(2)/recvmsg(2) are in the property's quantifier as conditions under which the
                 # stream must still be exact: surfacing them as a read error ends the stream and strands the rest
@@ -307,6 +366,7 @@ def monitor(case, out):
             elif w[1] == "start":
                 if rc == 0:
                     if closing: raise Bad("start-on-closing", "uv_read_start succeeded on a closing handle")
+                    if quiet: since_start = dict.fromkeys(since_start, 0)
                     quiet = False
                     starts_ok += 1
             elif w[1] == "close":
@@ -443,7 +503,11 @@ def run(ctx):
     ctx.notes["lead_not_generated"] = ("non-IPC uv_pipe_t on a unix socket whose peer sends a descriptor-carrying message, more data, then closes: "
                                        "read(2) stops at the message boundary, READ_PARTIAL is set, POLLHUP -> synthetic UV_EOF, trailing data "
                                        "never delivered (reproducer corpus/C06/pipe-nonipc-fd-msg-hup.lead; `peer fd` is generated for IPC pipes only)")
-    ctx.require_lean(["UvModel.Props.C06"])
+    ctx.trusted += ["tools/gen_lean.py (clang AST -> Lean for the loop-free kernels read_start_api, read_start_body, read_stop) and UvModel/CSem.lean"]
+    # Tie A: uv_read_start / uv__read_start / uv_read_stop regenerated from /repo, GenEq/C06 re-proves them = StreamR.readStart / readStop
+    # (a failing translation is recorded in ctx.broken by gen_lean itself)
+    ctx.gen_lean(need=["C06"])
+    ctx.require_lean(["UvModel.GenEq.C06", "UvModel.Props.C06", "UvModel.Props.C06Live"])
     exe = ctx.harness("c06_sim", ["harness/c06_sim.c"], link_lib=True)
     if exe is None:
         return
@@ -471,7 +535,7 @@ def run(ctx):
         diff = ctx.notes.get("diff_cases", [])
         bias = "ipc" if any(c[0] == "open ipc" for c in diff) else None
         for rnd in range(ctx.scale(100, 300)):
-            cases = [gen_case(srng, srng.range(3, 40), bias if rnd % 2 else None) for _ in range(300)]
+            cases = [gen_case(srng, srng.range(3, 40), [None, bias, "keepopen", bias][rnd % 4]) for _ in range(300)]
             with ThreadPoolExecutor(NCPU) as ex:
                 res = list(ex.map(lambda c: check_case(ctx, exe, c), cases))
             n += len(cases)
@@ -484,4 +548,4 @@ def run(ctx):
         ctx.notes["search"] = f"{n} extra programs run against the monitors after an obligation broke"
     ctx.cov["rule"] = ("random programs: stream kind (pipe/tcp/ipc) x alloc_cb size/refusal list x read/recvmsg injection schedule x read_cb "
                        "scripts (stop/start/close) x main ops (peer write / fd message / half-close / close, run, edited epoll events, "
-                       "stop/start/close); non-trivial = >=1 short read, EAGAIN or EINTR; distinct by (op shape, logged environment)")
+                       "stop/start/close, drain = run until the stream is idle); non-trivial = >=1 short read, EAGAIN or EINTR; distinct by (op shape, logged environment)")
